@@ -241,6 +241,8 @@ def shards(tier, seed):
         out.append({'part': 'docs', 'm1': 'zinc', 'n': nz // kz + 1, 'sub': i})
     for i in range(kj):
         out.append({'part': 'docs', 'm1': 'json', 'n': nj // kj + 1, 'sub': i})
+    # one parsed grid dumped by two threads at once (reading a grid from several threads is sharing nothing but the grid)
+    out.append({'part': 'threads', 'bound': 1 if tier == 'quick' else 2, 'cap': 500 if tier == 'quick' else 20000})
     if tier == 'thorough':
         for hseed in (1, 2, 3, 4, 5, 6, 7, 8):
             out.append({'part': 'hashseed', 'n': 300, 'env': {'PYTHONHASHSEED': str(hseed)}, 'hseed': hseed})
@@ -255,6 +257,33 @@ def run_shard(spec, ctx):
     if spec['part'] == 'repo-tests':
         from vf import contracts
         contracts.repo_tests_shard(ctx, ['dump-pure'], PROP)
+        return
+    if spec['part'] == 'threads':
+        from vf import threads as T
+        r = random.Random(ctx.seed * 1000003 + 777)
+        gen = D.Gen(r)
+        docs = []
+        while len(docs) < 3:
+            n = gen.grid(r.choice(['2.0', '3.0']), small=True, maxcols=3, maxrows=2)
+            if not c03.expressible(n) or len({x[0] for _, x in D.walk(n, 'top')}) < 4:
+                continue
+            _, text = c03.build_doc([n], 7, None, True, 'str')
+            try:
+                g = hszinc.parse(text, mode=hs.ZINC)
+                hszinc.dump(g, mode=hs.ZINC), hszinc.dump(g, mode=hs.JSON)
+            except Exception:
+                continue
+            docs.append(text)
+        for di, text in enumerate(docs):
+            def make_jobs(text=text):
+                g = hszinc.parse(text, mode=hs.ZINC)         # one grid object for both threads
+
+                def job():
+                    return (hszinc.dump(g, mode=hs.ZINC), hszinc.dump(g, mode=hs.JSON), hszinc.dump([g, g], mode=hs.JSON))
+                return [job, job]
+            T.explore(ctx, 'same-grid-dumped-twice/%d' % di, make_jobs, spec['bound'], spec['cap'],
+                      {'part': 'schedule', 'format': 'transcode', 'position': 'document', 'kind': 'grid'}, {'threads_doc': text})
+        ctx.count('thread-schedule documents', len(docs))
         return
     if spec['part'] == 'hashseed':
         # same documents in every process (seeded independently of the hash seed); texts are digested and
@@ -328,6 +357,19 @@ def run_shard(spec, ctx):
 
 
 def replay(case, ctx):
+    if 'threads_doc' in case:
+        import hszinc
+        from vf import threads as T
+
+        def make_jobs():
+            g = hszinc.parse(case['threads_doc'], mode=hs.ZINC)
+
+            def job():
+                return (hszinc.dump(g, mode=hs.ZINC), hszinc.dump(g, mode=hs.JSON), hszinc.dump([g, g], mode=hs.JSON))
+            return [job, job]
+        T.replay(ctx, 'same-grid-dumped-twice', make_jobs, case.get('overrides', []),
+                 {'part': 'schedule', 'format': 'transcode', 'position': 'document', 'kind': 'grid'}, case)
+        return
     if 'doc' in case:
         ns = [D.dec(x) for x in case['doc']]
         sym, detail, art = judge_doc(ns, case['m1'], case['seed'])
